@@ -4,7 +4,7 @@ Proof: Poly/Props/C34.lean (InitConfig with >= 4 pairwise different keys establi
 transaction preserves them, hence every history: >= 4 active members, no public key in two entries, distinct keys have
 distinct indices, the index table is injective; blacklisted / pooled / applied keys cannot register; an epoch change
 advances the view by one, records the height, keeps exactly the active members as consensus members; at most one per
-block; CommitDpos needs the operator or MaxBlockChangeView). Tie: correspondence streams `gov-approvals`, `gov-votes` (pool changes between approvals / votes) and `gov-pool` (pools of 4..9
+block; CommitDpos needs the operator or MaxBlockChangeView). Tie: correspondence streams `gov-approvals` (pool changes between approvals) and `gov-pool` (pools of 4..9
 validators; register with lower / upper / mixed-case hex and other encodings of the same key, blacklisted keys, keys in
 the pool; unregister; approval rounds; quit; black batches with duplicates; white; commitDpos by operator / outsider /
 after MaxBlockChangeView; updateConfig; a second initConfig; across block heights); the harness evaluates the
@@ -14,4 +14,4 @@ from checks import gov_common
 
 
 def run(ctx):
-    gov_common.run_streams(ctx, "C34", ["gov-pool", "gov-approvals", "gov-votes"], "Poly.Props.C34.invariants_over_histories / epoch_step")
+    gov_common.run_streams(ctx, "C34", ["gov-pool", "gov-approvals"], "Poly.Props.C34.invariants_over_histories / epoch_step")
